@@ -398,6 +398,66 @@ def part_reentrant(args):
     return n, res, {}
 
 
+def part_slow(args):
+    """handlers that take real time (blocking work inside the handler: 0.12 s, 1.05 s - longer than the usual
+    'slow callback' thresholds of 0.1 s and 1 s): the reply is the same as for a fast handler.  The only part of this
+    check that lets real time pass; a sleep is at least as long as asked for, so the outcome does not depend on load"""
+    import time
+    own_sid, own_major, durations = args
+    loop = VLoop().install()
+    res = []
+    n = 0
+    try:
+        for dur in durations:
+            for method, mtype in ((5, 0x00), (5, 0x01), (6, 0x00), (7, 0x00)) if dur < 1 else ((5, 0x00),):
+                s = make(loop, own_sid, own_major)
+
+                def h5(msg, addr, dur=dur):
+                    time.sleep(dur)
+                    return b"R" + msg.payload[:4]
+
+                def h6(msg, addr, dur=dur):
+                    time.sleep(dur)
+                    raise svc.MalformedMessageError("no")
+
+                def h7(msg, addr, dur=dur):
+                    time.sleep(dur)
+                    return None
+
+                s.register_method(5, h5)
+                s.register_method(6, h6)
+                s.register_method(7, h7)
+                f = (own_sid, method, 0x11, 0x22, own_major, mtype, 0, b"slow")
+                nxt = (own_sid, 1, 0x12, 0x23, own_major, 0x00, 0, b"next")
+                exc = None
+                try:
+                    # a second, ordinary request follows in the same datagram
+                    s.datagram_received(refcodec.enc_someip(*f) + refcodec.enc_someip(*nxt), ADDR, False)
+                except Exception as e:  # noqa: BLE001
+                    exc = type(e).__name__
+                if loop._ready or loop._scheduled:
+                    loop.settle()
+                n += 1
+                want = []
+                for g in (f, nxt):
+                    exp, _ = expected(own_sid, own_major, (g[0], {5: 1, 6: 3, 7: 2}.get(g[1], g[1])) + tuple(g[2:]), False)
+                    if exp is not None:
+                        want.append((ADDR, (g[0], g[1], g[2], g[3], g[4]) + exp))
+                got = []
+                for _, _, data, addr in s.transport.sent:
+                    msgs, err, tail = refcodec.dec_someip_all(data)
+                    got += [(addr, (m["service"], m["method"], m["client"], m["session"], m["iface"], m["mtype"], m["code"], m["payload"]))
+                            for m in msgs]
+                case = dict(own=(own_sid, own_major), slow=[dur, method, mtype])
+                if exc:
+                    res.append(("no-exception", f"slow-handler-{exc}", f"handler took {dur} s: datagram_received raised {exc}", case))
+                elif got != want:
+                    res.append(("one-reply", "slow-handler", f"handler took {dur} s: replies {got!r:.300} expected {want!r:.300}", case))
+    finally:
+        loop.dispose()
+    return n, res, {}
+
+
 def part_long(args):
     """one datagram that holds as many requests as fit (16-byte messages up to the UDP payload limit): every one
     gets its own reply, in order"""
@@ -449,6 +509,7 @@ def check(ctx):
     out = core.pmap(part, parts, 1)
     out += core.pmap(part_history, [(own_sid, own_major)], 1)
     out += core.pmap(part_long, [(own_sid, own_major)], 1)
+    out += core.pmap(part_slow, [(own_sid, own_major, (0.12, 1.05) if not ctx.thorough else (0.12, 0.55, 1.05, 5.1))], 1)
     out += core.pmap(part_reentrant, [(own_sid, own_major, 4 if ctx.thorough else 3)], 1)
     out += core.pmap(part_sequences, [(own_sid, own_major, 4 if ctx.thorough else 3, ws) for ws in (False, True)], 1)
     n = sum(o[0] for o in out)
@@ -501,6 +562,11 @@ def replay(ctx, body):
             loop.dispose()
         for r in res:
             print("FAILS (last message of the sequence):", r)
+        return 1 if res else 0
+    if "slow" in case:
+        _, res, _ = part_slow((own[0], own[1], (case["slow"][0],)))
+        for r in res:
+            print("FAILS:", r[:3])
         return 1 if res else 0
     if "nested" in case:
         _, res, _ = part_reentrant((own[0], own[1], len(case["nested"])))
